@@ -21,6 +21,18 @@ class Store:
             self.ds = Datastore(cls, testing=True, filepath=self.path, **kw)
         self.storage = self.ds.storage_strategy
 
+    def tighten_limits(self, variables=999, compound=500):
+        """Gives the store's connection the per-statement limits of an older / stock SQLite build (999 bound variables, 500
+        compound terms) instead of whatever this machine's build allows (250 000 here): a resource made small, so that
+        running out of it is cheap to reach. Returns False where it cannot be done."""
+        import sqlite3
+        if self.backend == "memory" or not hasattr(sqlite3.Connection, "setlimit"):
+            return False
+        conn = self.storage.conn if self.backend == "sqlite" else self.storage.db.connection()
+        conn.setlimit(sqlite3.SQLITE_LIMIT_VARIABLE_NUMBER, variables)
+        conn.setlimit(sqlite3.SQLITE_LIMIT_COMPOUND_SELECT, compound)
+        return True
+
     def close(self, remove=True):
         st = self.storage
         try:
